@@ -18,6 +18,14 @@ struct SpectraVerifAccess {
         for (long j = 0; j < k; j++) for (long i = 0; i < n; i++) feed(f.m_fac_V(i, j));
         return "k=" + str(k) + " beta=e:" + str(dbits(f.m_beta)) + " hash=" + str(h);
     }
+    template <class F> static std::string fachash32(const F& f) {
+        uint64_t h = 1469598103934665603ull; auto feed = [&h](float x) { uint32_t u = fbits(x + 0.0f); for (int b = 0; b < 4; b++) { h ^= (u >> (8 * b)) & 0xff; h *= 1099511628211ull; } };
+        feed(f.m_beta); const long m = f.m_m, n = f.m_n, k = f.m_k;
+        for (long j = 0; j < m; j++) for (long i = 0; i < m; i++) feed(f.m_fac_H(i, j));
+        for (long i = 0; i < n; i++) feed(f.m_fac_f[i]);
+        for (long j = 0; j < k; j++) for (long i = 0; i < n; i++) feed(f.m_fac_V(i, j));
+        return "k=" + str(k) + " beta=e:" + str(fbits(f.m_beta)) + " hash=" + str(h);
+    }
 };
 
 // uniform view of one solver object
@@ -203,6 +211,64 @@ static std::string herm_header(int variant, int n, int nev, int ncv, double sigm
 }
 static Mat inverse_ld(const Mat& A, double sigma) { MatL M = A.cast<LD>(); for (long i = 0; i < M.rows(); i++) M(i, i) -= (LD) sigma; MatL I = M.partialPivLu().inverse(); return I.cast<double>(); }
 
+// ---- Scalar = float: correspondence only (the same generic Lean model at Float32) ----
+template <class T> struct LoopMatOpT {
+    using Scalar = T; const Eigen::Matrix<T, Eigen::Dynamic, Eigen::Dynamic>* M;
+    explicit LoopMatOpT(const Eigen::Matrix<T, Eigen::Dynamic, Eigen::Dynamic>& m) : M(&m) {}
+    Eigen::Index rows() const { return M->rows(); } Eigen::Index cols() const { return M->cols(); }
+    void perform_op(const T* x, T* y) const { const long n = M->rows(), m = M->cols(); for (long i = 0; i < n; i++) { T s = T(0); for (long j = 0; j < m; j++) s += (*M)(i, j) * x[j]; y[i] = s; } }
+    void set_shift(const T&) {}
+};
+struct FloatAccess32 {
+    template <class F> static std::string fachash(const F& f) { return SpectraVerifAccess::fachash32(f); }
+};
+struct FloatAccess32_unused {
+    template <class F> static std::string fachash(const F& f) {
+        uint64_t h = 1469598103934665603ull; auto feed = [&h](float x) { uint32_t u = fbits(x + 0.0f); for (int b = 0; b < 4; b++) { h ^= (u >> (8 * b)) & 0xff; h *= 1099511628211ull; } };
+        feed(f.m_beta); const long m = f.m_m, n = f.m_n, k = f.m_k;
+        for (long j = 0; j < m; j++) for (long i = 0; i < m; i++) feed(f.m_fac_H(i, j));
+        for (long i = 0; i < n; i++) feed(f.m_fac_f[i]);
+        for (long j = 0; j < k; j++) for (long i = 0; i < n; i++) feed(f.m_fac_V(i, j));
+        return "k=" + str(k) + " beta=e:" + str(fbits(f.m_beta)) + " hash=" + str(h);
+    }
+};
+template <class Solver> static void float_history(Solver& s, int n, int nev, const std::vector<Call>& calls, std::string& req, std::string& resp) {
+    bool inited = false;
+    for (const Call& k : calls) {
+        if (k.kind == 'I' || k.kind == 'J') {
+            Eigen::VectorXf v0 = k.v0.cast<float>();
+            req += (k.kind == 'I' ? std::string(" | I") : std::string(" | J"));
+            if (k.kind == 'I') for (int i = 0; i < n; i++) req += " " + str(fbits(v0[i]));
+            try { if (k.kind == 'I') s.init(v0.data()); else s.init(); inited = true; resp += " | ok nmatop=" + str((long) s.num_operations()); }
+            catch (const std::invalid_argument&) { resp += " | throw std::invalid_argument"; }
+        } else if (k.kind == 'C' && inited) {
+            float tol = (float) k.tol;
+            req += " | C " + str(k.sel) + " " + str(k.maxit) + " " + str(fbits(tol)) + " " + str(k.sort);
+            long r = -1;
+            try { r = s.compute((SortRule) k.sel, k.maxit, tol, (SortRule) k.sort); }
+            catch (const std::invalid_argument&) { resp += " | throw std::invalid_argument"; continue; }
+            catch (const std::runtime_error&) { resp += " | throw std::runtime_error"; continue; }
+            resp += " | ret=" + str(r) + " info=" + str((int) s.info()) + " niter=" + str((long) s.num_iterations()) + " nmatop=" + str((long) s.num_operations());
+            req += " | E | V " + str(nev) + " | F";
+            Eigen::VectorXf e = s.eigenvalues(); resp += " | k=" + str((long) e.size()); for (long i = 0; i < e.size(); i++) resp += " e:" + str(fbits(e[i]));
+            Eigen::MatrixXf X = s.eigenvectors(nev); resp += " | rows=" + str(n) + " cols=" + str((long) X.cols()); for (long j = 0; j < X.cols(); j++) for (long i = 0; i < X.rows(); i++) resp += " " + str(fbits(X(i, j) + 0.0f));
+            resp += " | " + FloatAccess32::fachash(SpectraVerifAccess::fac(s));
+        }
+    }
+}
+static void float_case(Rng& r, Out& out, int variant, int n, int nev, int ncv, int kind, double scale, const std::vector<Call>& calls) {
+    Eigen::MatrixXf A = gen_sym(r, n, kind, scale).cast<float>(); Eigen::MatrixXf At = A.transpose(); A = (0.5f * (A + At)).eval();
+    float sigma = 0.0f; Eigen::MatrixXf M = A;
+    if (variant == 1) { sigma = (float) (0.37 * scale * r.sym() * 3); M = inverse_ld(A.cast<double>(), (double) sigma).cast<float>(); }
+    const float eps = Spectra::TypeTraits<float>::epsilon(); const float eps23 = std::pow(eps, float(2) / 3); const float near0 = Spectra::TypeTraits<float>::min() * float(10);
+    std::string req = "herm32 " + str(variant) + " " + str(n) + " " + str(nev) + " " + str(ncv) + " " + str(fbits(eps23)) + " " + str(fbits(near0)) + " " + str(fbits(eps)) + " " + str(fbits(sigma));
+    for (long i = 0; i < n; i++) for (long j = 0; j < n; j++) req += " " + str(fbits(M(i, j)));
+    std::string resp; LoopMatOpT<float> op(M);
+    if (variant == 0) { Spectra::SymEigsSolver<LoopMatOpT<float>> s(op, nev, ncv); float_history(s, n, nev, calls, req, resp); }
+    else { Spectra::SymEigsShiftSolver<LoopMatOpT<float>> s(op, nev, ncv, sigma); float_history(s, n, nev, calls, req, resp); }
+    out.corr(req, resp.size() > 3 ? resp.substr(3) : resp); out.count("float_cases");
+}
+
 int main(int argc, char** argv) {
     Args args(argc, argv); Out out(args.out);
     const int ncases = args.thorough() ? 1500 : 260;
@@ -259,6 +325,7 @@ int main(int argc, char** argv) {
                     a.cls = "SymGEigsShiftSolver<Cayley>"; common_api(a, s, log); a.resid = pair_gen(A, B, sc); a.truecount = [&a]() { return a.nmatop(); }; run_history(a, calls, c); }
             }
         } }
+        if (cls <= 1) { Rng rf(args.seed, 55, cs); float_case(rf, out, cls, n, nev, ncv, kind == 3 ? 0 : kind, (scale == 1e-6 || scale == 1e5) ? 1.0 : scale, calls); }
         } catch (const std::exception& e) { out.count(std::string("case_exception_") + (dynamic_cast<const std::invalid_argument*>(&e) ? "invalid_argument" : "other")); }
     }
     out.finish();
